@@ -53,8 +53,9 @@ def gen(W):
         hdrs.append(["Content-Type", "text/plain; %s" % MARK])
     sc["headers"] = hdrs
     sc["status"] = "200 OK"
-    sc["hostile"] = W.choice(["char_status", "char_name", "char_value", "empty_name", "nonstr_status", "nonstr_name",
+    sc["hostile"] = W.choice(["char_status", "char_name", "char_value", "char_special", "empty_name", "nonstr_status", "nonstr_name",
                               "nonstr_value", "hop_by_hop", "none"], p0=0.05)
+    sc["special"] = W.choice(["Content-Length", "content-length", "Date", "Server", "Content-Type", "Set-Cookie", "CONTENT-LENGTH"])
     sc["off"] = W.choice(sorted(OFFENDERS))
     sc["pos"] = W.draw(3)
     sc["nonstr"] = W.choice(["bytes", "int", "none"])
@@ -90,6 +91,19 @@ def build_hostile(sc):
         hdrs.insert(i, ("X-Hostile" + MARK, place("value" + MARK, off, sc["pos"])))
         must = sc["off"] in MUST_REFUSE
         desc = "char_value:%s@%d" % (sc["off"], sc["pos"])
+    elif h == "char_special":
+        # headers the server treats specially (parsed, replaced or echoed) must get the same scrutiny
+        nm = sc.get("special", "Content-Length")
+        if nm.lower() == "content-length":
+            base = str(sc["body"])
+        elif nm.lower() == "date":
+            base = "Tue, 14 Nov 2023 22:13:20 GMT"
+        else:
+            base = "v" + MARK
+        hdrs = [x for x in hdrs if x[0].lower() != nm.lower()]
+        hdrs.insert(i, (nm, place(base, off, sc["pos"])))
+        must = sc["off"] in MUST_REFUSE
+        desc = "char_special:%s:%s@%d" % (nm.lower(), sc["off"], sc["pos"])
     elif h == "empty_name":
         hdrs.insert(i, ("", "v" + MARK))
     elif h == "nonstr_status":
@@ -125,7 +139,7 @@ class App:
         status, hdrs, must, desc = build_hostile(sc)
         body = (MARK.encode() * 100)[:sc["body"]]
         benign = [tuple(h) for h in sc["headers"]]
-        if sc["declare_cl"]:
+        if sc["declare_cl"] and not (sc["hostile"] == "char_special" and sc.get("special", "").lower() == "content-length"):
             hdrs = hdrs + [("Content-Length", str(len(body)))]
             benign = benign + [("Content-Length", str(len(body)))]
         try:
@@ -201,7 +215,7 @@ def run_one(tapes, tier, scenario=None):
             if sc["channel"] == "mutate_after":
                 benign = [tuple(h) for h in sc["headers"]]
                 late = [x for x in want if x not in benign]
-                want = [x for x in want if x in benign]
+                want = list(benign)  # what start_response was actually given
             else:
                 late = []
             if sc["declare_cl"]:
